@@ -14,9 +14,9 @@
        serial queue without internal targeters ("strict") never has parked references.
      * the first pusher of an empty list holds the +2 it will hand to the wakeup before it publishes the head
        (rdar://6932776: once the item can be dequeued the pusher may rely on no other reference - the item itself
-       may release the last one).  The only pusher that takes none is a sync waiter: its thread is blocked inside
-       dispatch_sync / dispatch_apply holding the caller's reference for the whole call (identified by the API
-       events of the thread, not by function names).
+       may release the last one).  A push of a sync waiter takes no +2 at all (it borrows the blocked caller's
+       reference); what is rejected is a +2 taken as the pusher's NEXT access to the object after it published
+       the head without one - recognised by the order of the accesses, not by function names.
      * the decrement to -1 (dispose point) must satisfy RefsWord!DisposeOK: external count -1, no reference held
        by the application, no item pending or running, no live targeter, idle dq_state, empty list, no reference
        in flight.  After it, nobody but the disposing thread touches the object (no use after dispose), the
@@ -35,6 +35,7 @@ VARIABLES l, S, err
 tvars == <<l, S, err>>
 
 NoPush == -1000      \* fp[o][t]: the hand of t when it exchanged the tail of the empty list of o, NoPush otherwise
+Late == -2000        \*   ... or Late: the last access of t to o published the head without a +2 taken since the exchange
 StIdle == [sc |-> 0, side |-> FALSE, inact |-> FALSE, na |-> FALSE, ib |-> FALSE, pb |-> FALSE, used |-> 0, dirty |-> FALSE,
            enq |-> FALSE, enqm |-> FALSE, locked |-> FALSE]
 RoleRefsT(s) == RoleRefs(s) + (IF s.enqm THEN 2 ELSE 0)
@@ -44,7 +45,7 @@ S0 == [alive |-> [o \in Objs |-> "none"], kind |-> [o \in Objs |-> "none"], stri
        ref |-> [o \in Objs |-> 0], xref |-> [o \in Objs |-> 0], st |-> [o \in Objs |-> StIdle], tnn |-> [o \in Objs |-> FALSE],
        held |-> [o \in Objs |-> 0], busy |-> [o \in Objs |-> 0], targ |-> [o \in Objs |-> 0],
        hand |-> [o \in Objs |-> [t \in Thr |-> 0]], parked |-> [o \in Objs |-> 0], fp |-> [o \in Objs |-> [t \in Thr |-> NoPush]],
-       insync |-> [t \in Thr |-> FALSE], tgt |-> [o \in Objs |-> -1], fins |-> [o \in Objs |-> 0], dtors |-> [o \in Objs |-> 0], dthr |-> [o \in Objs |-> -1]]
+       tgt |-> [o \in Objs |-> -1], fins |-> [o \in Objs |-> 0], dtors |-> [o \in Objs |-> 0], dthr |-> [o \in Objs |-> -1]]
 
 TInit == l = 2 /\ S = S0 /\ err = "" /\ TLCSet(1, 0)
 
@@ -123,7 +124,8 @@ HR(s, r) ==
     ELSE IF r.op = "add" THEN
          LET n == r.new - r.old IN
          Out(AddHand([s EXCEPT !.ref[o] = r.new], o, t, n),
-             FirstErr(<< <<r.old = s.ref[o], "internal count does not chain">>,
+             FirstErr(<< <<~(s.fp[o][t] = Late /\ n = 2), "first pusher took its +2 only after publishing the head: the item can be dequeued, run and release the last reference before the wakeup (rdar://6932776)">>,
+                         <<r.old = s.ref[o], "internal count does not chain">>,
                          <<n \in {1, 2}, "internal retain of an amount no function takes">>,
                          <<RetainN(r.old, n).ok, "internal retain of an object whose count already reached -1 (resurrection)">> >>))
     ELSE IF r.op = "sub" THEN
@@ -161,10 +163,8 @@ HTail(s, r) ==
 HHead(s, r) ==
     LET o == r.o t == r.t IN
     IF s.alive[o] # "live" THEN Out(s, "use after dispose: item list modified after the internal count reached -1")
-    ELSE IF s.kind[o] # "lane" \/ s.fp[o][t] = NoPush \/ ~r.nn THEN Out(s, "")
-    ELSE Out([s EXCEPT !.fp[o][t] = NoPush],
-             IF s.hand[o][t] - s.fp[o][t] >= 2 \/ s.insync[t] THEN ""
-             ELSE "first pusher published the head before taking its +2: the item can be dequeued, run and release the last reference before the wakeup (rdar://6932776)")
+    ELSE IF s.kind[o] # "lane" \/ s.fp[o][t] \in {NoPush, Late} \/ ~r.nn THEN Out(s, "")
+    ELSE Out([s EXCEPT !.fp[o][t] = IF s.hand[o][t] - s.fp[o][t] >= 2 THEN NoPush ELSE Late], "")
 
 \* rest point of thread t: settle its hand on every live object
 RestOf(s, t) ==
@@ -184,9 +184,8 @@ RestOf(s, t) ==
         IF bad1 # {} THEN "a thread left the library owing a reference: a role was established without its +2, or a reference was released twice"
         ELSE IF bad2 # {} THEN "a thread left the library still holding a reference of a serial queue: a +2 was never released (leak)"
         ELSE "")
-\* r.b = 2 (dispatch_sync_f) or 3 (dispatch_apply_f): the thread stays inside the call until its next "Rest"
 HSub(s, r) == LET x == RestOf(s, r.t) IN
-              Out([x.S EXCEPT !.busy[r.o] = @ + r.c, !.insync[r.t] = (r.b \in {2, 3})], IF x.err # "" THEN x.err ELSE
+              Out([x.S EXCEPT !.busy[r.o] = @ + r.c], IF x.err # "" THEN x.err ELSE
                   IF s.alive[r.o] = "live" THEN "" ELSE "submission to a disposed object")
 HEnd(s, r) == LET x == RestOf(s, r.t) IN Out([x.S EXCEPT !.busy[r.o] = @ - 1], x.err)
 HBusy(s, r) == LET x == RestOf(s, r.t) IN Out([x.S EXCEPT !.busy[r.o] = @ + r.a], x.err)
@@ -211,13 +210,16 @@ Handle(s, r) ==
       [] r.e = "Sub" -> HSub(s, r) [] r.e = "End" -> HEnd(s, r) [] r.e = "Busy" -> HBusy(s, r)
       [] r.e = "Fin" -> HFin(s, r) [] r.e = "Dtor" -> HDtor(s, r) [] r.e = "DisposeProbe" -> HProbe(s, r)
       [] r.e = "Idle" -> HIdle(s, r)
-      [] r.e = "Rest" -> LET x == RestOf(s, r.t) IN Out([x.S EXCEPT !.insync[r.t] = FALSE], x.err)
-      [] r.e \in {"Start", "DataDtor"} -> RestOf(s, r.t)
+      [] r.e \in {"Rest", "Start", "DataDtor"} -> RestOf(s, r.t)
       [] r.e = "Reset" -> Out(S0, "")
       [] OTHER -> Out(s, "")
 
+\* `Late` lives for exactly one access of the thread to the object
+Expire(before, after, r) ==
+    IF r.e \in {"R", "X", "SR", "St", "Tail", "Head"} /\ before.fp[r.o][r.t] = Late /\ after.fp[r.o][r.t] = Late
+    THEN [after EXCEPT !.fp[r.o][r.t] = NoPush] ELSE after
 TNext == /\ l <= Len(Tr) /\ err = ""
-         /\ LET x == Handle(S, Rec) IN S' = x.S /\ err' = x.err
+         /\ LET x == Handle(S, Rec) IN S' = Expire(S, x.S, Rec) /\ err' = x.err
          /\ l' = l + 1
 TSpec == TInit /\ [][TNext]_tvars
 
